@@ -442,7 +442,7 @@ fn child_field(col: &Col, k: usize, var: Variant, leaf_meta: &std::collections::
 
 /// The Arrow array of layer k for the given slots (Some(j): slot j of the scenario, None: a
 /// garbage slot hidden behind a null list).
-fn build_array(col: &Col, k: usize, slots: &[Option<usize>], var: Variant, leaf_meta: &std::collections::HashMap<String, String>) -> ArrayRef {
+fn build_array(col: &Col, k: usize, slots: &[Option<usize>], var: Variant, leaf_meta: &std::collections::HashMap<String, String>, id_base: i32) -> ArrayRef {
     let bits: Vec<bool> = slots
         .iter()
         .map(|s| match s {
@@ -456,14 +456,14 @@ fn build_array(col: &Col, k: usize, slots: &[Option<usize>], var: Variant, leaf_
             let vals: Vec<i32> = slots
                 .iter()
                 .map(|s| match s {
-                    Some(j) => *j as i32,
+                    Some(j) => id_base + *j as i32,
                     None => -7,
                 })
                 .collect();
             Arc::new(Int32Array::new(ScalarBuffer::from(vals), validity))
         }
         "S" => {
-            let child = build_array(col, k + 1, slots, var, leaf_meta);
+            let child = build_array(col, k + 1, slots, var, leaf_meta, id_base);
             let fields = Fields::from(vec![child_field(col, k + 1, var, leaf_meta, "c")]);
             Arc::new(StructArray::new(fields, vec![child], validity))
         }
@@ -486,7 +486,7 @@ fn build_array(col: &Col, k: usize, slots: &[Option<usize>], var: Variant, leaf_
                 }
                 offs.push(child_slots.len() as i64);
             }
-            let child = build_array(col, k + 1, &child_slots, var, leaf_meta);
+            let child = build_array(col, k + 1, &child_slots, var, leaf_meta, id_base);
             let field = Arc::new(child_field(col, k + 1, var, leaf_meta, "item"));
             if var.large {
                 Arc::new(LargeListArray::new(field, OffsetBuffer::new(ScalarBuffer::from(offs)), child, validity))
@@ -527,6 +527,8 @@ struct FileOpts {
     /// directed tiled case: systematic reads (whole scan echoed, long range, strided takes, short
     /// ranges spread over the file) instead of a random sample
     sweep: bool,
+    /// leaf values differ from copy to copy
+    unique: bool,
 }
 
 async fn run_file_inner(col: &Col, var: Variant, fo: &FileOpts, seed: u64, id: u64) -> Result<Vec<Value>, String> {
@@ -537,8 +539,15 @@ async fn run_file_inner(col: &Col, var: Variant, fo: &FileOpts, seed: u64, id: u
     );
     let rows = col.v[0].len();
     let slots: Vec<Option<usize>> = (0..rows).map(Some).collect();
-    let one = build_array(col, 0, &slots, var, &leaf_meta);
-    let copies: Vec<&dyn Array> = (0..fo.reps).map(|_| one.as_ref()).collect();
+    // leaf values: the slot number inside one copy, or (unique) copy * slots-per-copy + slot so that the
+    // column is not dictionary encoded
+    let per_copy = col.leaf_slots() as i32;
+    let built: Vec<ArrayRef> = if fo.unique {
+        (0..fo.reps).map(|c| build_array(col, 0, &slots, var, &leaf_meta, c as i32 * per_copy)).collect()
+    } else {
+        vec![build_array(col, 0, &slots, var, &leaf_meta, 0)]
+    };
+    let copies: Vec<&dyn Array> = (0..fo.reps).map(|c| built[if fo.unique { c } else { 0 }].as_ref()).collect();
     let all = arrow_select::concat::concat(&copies).map_err(|e| format!("concat: {e}"))?;
     let total = all.len();
     let field = child_field(col, 0, var, &leaf_meta, "c");
@@ -693,7 +702,7 @@ fn rows_per(total: usize, reps: usize) -> usize {
     std::cmp::max(1, total / std::cmp::max(1, reps))
 }
 
-fn run_file(rt: &tokio::runtime::Runtime, scn: &Value, id: u64, var: Variant, seed: u64, tiled: bool, sweep: bool, force: &[Option<bool>; 3]) -> Option<Value> {
+fn run_file(rt: &tokio::runtime::Runtime, scn: &Value, id: u64, var: Variant, seed: u64, tiled: bool, sweep: bool, unique: bool, force: &[Option<bool>; 3]) -> Option<Value> {
     let parts: Vec<Col> = scn["parts"].as_array().unwrap().iter().map(Col::parse).collect();
     let col = parts[0].clone();
     if col.kinds.iter().any(|k| k == "F") {
@@ -707,6 +716,7 @@ fn run_file(rt: &tokio::runtime::Runtime, scn: &Value, id: u64, var: Variant, se
         two_batches: force[1].unwrap_or((h >> 19) & 1 == 1),
         tiny_pages: force[2].unwrap_or((h >> 29) & 1 == 1),
         sweep,
+        unique,
     };
     let res = {
         let col2 = col.clone();
@@ -719,7 +729,7 @@ fn run_file(rt: &tokio::runtime::Runtime, scn: &Value, id: u64, var: Variant, se
         Ok(Ok(r)) => (String::new(), r),
     };
     Some(json!({"ev": "file", "id": id, "parts": [scn["parts"][0]], "large": var.large, "reps": fo.reps,
-                "fullzip": fo.fullzip, "two_batches": fo.two_batches, "tiny_pages": fo.tiny_pages,
+                "fullzip": fo.fullzip, "two_batches": fo.two_batches, "tiny_pages": fo.tiny_pages, "unique": fo.unique,
                 "error": error, "reads": reads}))
 }
 
@@ -748,6 +758,7 @@ fn main() {
     let fb = |k: &str| args.get(k).map(|v| v == "1");
     let force = [fb("fullzip"), fb("two-batches"), fb("tiny-pages")];
     let sweep = args.get("sweep").map(|v| v == "1").unwrap_or(false);
+    let unique = args.get("unique").map(|v| v == "1").unwrap_or(false);
     let text = std::fs::read_to_string(&input).unwrap();
     let mut tw = TraceWriter::create(&out);
     for (i, line) in text.lines().enumerate() {
@@ -768,7 +779,7 @@ fn main() {
                 if scn["how"].as_str() != Some("one") {
                     continue;
                 }
-                if let Some(ev) = run_file(&rt, &scn, id, var, seed, mode == "tiled", sweep, &force) {
+                if let Some(ev) = run_file(&rt, &scn, id, var, seed, mode == "tiled", sweep, unique, &force) {
                     tw.emit(ev);
                 }
             }
